@@ -65,8 +65,11 @@ fn classify_c01(c: &Case, r: &RunResult) -> Option<&'static str> {
             None
         }
         Outcome::Panic(_) => {
-            if !r.regular && (msg.contains("text_renderer.rs")) {
+            if msg.contains("text_renderer.rs") && !is_regular(&String::from_utf8_lossy(&c.spec.html)) {
                 return Some("irregular_unicode_width");
+            }
+            if c.spec.cfg.pad && c.spec.width > (1usize << 40) && (msg.contains("capacity overflow") || msg.contains("alloc")) {
+                return Some("pad_huge_width");
             }
             None
         }
